@@ -26,7 +26,7 @@ ASSUMPTIONS = ["real HTTPS, tar extraction and binary replacement are not exerci
                "'acting' is observed as a call of the download function",
                "a component that does not fit the implementation's integer may be treated as unparsable "
                "(then nothing may be done) - but never crash",
-               "histories use a monotone virtual clock"]
+               "histories use a virtual clock that mostly moves forward; 8 % of the steps go back by seconds to a day (a notice inside 72 h of the last one is a violation whichever way the clock moved)"]
 
 INT_MAX = 2 ** 31 - 1
 VER = re.compile(r"^([0-9]+)(?:\.([0-9]+))?(?:\.([0-9]+))?")
@@ -306,6 +306,9 @@ def part_history(ctx, binary, root):
         for _ in range(rng.randint(5, 40)):
             t += rng.choice([60, 600, 3600, 7200, 86400, 3 * 86400 - 1, 3 * 86400, 3 * 86400 + 1, 7 * 86400,
                              rng.randint(1, 4 * 86400)])
+            if rng.random() < 0.08:
+                # the wall clock steps back a little (NTP step, VM resume): still inside every window
+                t -= rng.choice([1, 30, 3600, 86400 + 5]) + rng.choice([60, 600, 3600, 7200, 86400])
             if rng.random() < 0.25:
                 latest = rng.choice(["1.2.0", "1.3.0", "v2.0.0", "1.2.1", "garbage", "0.1.0", "99999999999.0.0",
                                      "1.3.0-rc1", "v1.2.0"])
@@ -331,11 +334,14 @@ def part_history(ctx, binary, root):
         if line == "R":
             hI += 1
             k = 0
-            state = dict(last_notice=None, checked=0, notified=0)
+            state = dict(last_notice=None, checked=0, notified=0, tmax=0, stepped_back=False)
             ctx.note_case(("hist", hI), sample=dict(part="history", calls=meta[hI][:5]) if hI < 3 else None)
             continue
         t, cur, tag, env = meta[hI][k]
         k += 1
+        if t < state["tmax"]:
+            state["stepped_back"] = True
+        state["tmax"] = max(state["tmax"], t)
         rest = line.split(" ", 2)[2]
         f1 = rest.split("|")
         kv = dict(x.split("=", 1) for x in f1[1:])
@@ -353,7 +359,7 @@ def part_history(ctx, binary, root):
                 ctx.violation("notice:disabled", "notice printed although %s is set" % env, case)
             if state["last_notice"] is not None and t - state["last_notice"] < 72 * 3600:
                 ctx.violation("notice:window", "two notices %d s apart (< 72 h)" % (t - state["last_notice"]), case)
-            state["last_notice"] = t
+            state["last_notice"] = max(t, state["last_notice"] or 0)
             rc, rl = ref_parse(cur), ref_parse(kv["mentioned"])
             if not (fits(rc) and fits(rl) and rl > rc):
                 ctx.violation("notice:not-newer", "notice mentions %r while running %r" % (kv["mentioned"], cur), case)
@@ -364,7 +370,7 @@ def part_history(ctx, binary, root):
             except ValueError:
                 ctx.violation("notice:cache-format", "cache file has non-numeric timestamps: %r" % (c,), case)
                 continue
-            if chk < state["checked"] or ntf < state["notified"]:
+            if (chk < state["checked"] or ntf < state["notified"]) and not state["stepped_back"]:
                 ctx.violation("notice:cache-backwards", "cache timestamps went backwards: %r -> %r" %
                               ((state["checked"], state["notified"]), (chk, ntf)), case)
             state["checked"], state["notified"] = chk, ntf
